@@ -512,6 +512,37 @@ fn families(l: &Lang, thorough: bool) -> Acc {
             l.examine(&mut acc, &c, "family: keywords and function names", true);
         }
     }
+    // length ladder: names and literals of growing length built from 1-, 2-, 3- and 4-byte characters, with 0..3
+    // bytes of ASCII padding, in accepting and in rejecting contexts (error paths that echo the offending text)
+    {
+        let units = ["a", "\u{e9}", "\u{540d}", "\u{1d11e}"];
+        let maxn = if thorough { 140 } else { 72 };
+        for u in units {
+            for pad in ["", "x", "xy", "xyz"] {
+                for n in 1..=maxn {
+                    let x = format!("{}{}", pad, u.repeat(n));
+                    for c in [
+                        format!("$.{}", x),
+                        format!("$['{}']", x),
+                        format!("$[?@.{}]", x),
+                        format!("$[?@.a=='{}']", x),
+                        format!("$[?match(@.{},'a')]", x),
+                        format!("$[?match(@.{},'a')==true]", x),
+                        format!("$[?count(@.{})]", x),
+                        format!("$[?length(@['{}'])]", x),
+                        format!("$[?value(@..{})]", x),
+                        format!("$[?length(@.{}.*)==1]", x),
+                        format!("$[?foo(@.{})==1]", x),
+                        format!("$[?@.{} in 1]", x),
+                        format!("$[?@['{}'].*==1]", x),
+                        format!("$.{}[01]", x),
+                    ] {
+                        l.examine(&mut acc, &c, "family: length ladder with multi-byte characters", true);
+                    }
+                }
+            }
+        }
+    }
     // function nestings: every argument kind in every parameter position of the five functions, two levels deep,
     // in every context a function expression can appear in
     {
